@@ -33,16 +33,18 @@ pub fn transform(x: f64, t: usize) -> f64 {
         2 => x - 7.5,
         3 => x * 2f64.powi(-10),
         4 => x * 1000.0,
+        5 => x * 8.673617379884035e-19, // 2^-60: same conditioning, absolute spacings far below machine epsilon
+        6 => x * 1099511627776.0,       // 2^40
         _ => 1000.0 + x,
     }
 }
-pub const TRANSFORMS: [&str; 6] = ["x", "x+100", "x-7.5", "x*2^-10", "x*1000", "1000+x"];
+pub const TRANSFORMS: [&str; 8] = ["x", "x+100", "x-7.5", "x*2^-10", "x*1000", "x*2^-60", "x*2^40", "1000+x"];
 
 /// all abscissa lists: (pattern description, xs)
 pub fn abscissa_lists(thorough: bool) -> Vec<Vec<f64>> {
     let mut out = vec![];
     let maxn = if thorough { 6 } else { 5 };
-    let nt = if thorough { 6 } else { 5 };
+    let nt = if thorough { 8 } else { 7 };
     for base in [&BASE_EVEN, &BASE_UNEVEN] {
         for n in 3..=maxn {
             for s in subsets(6, n) {
